@@ -441,3 +441,89 @@ _obligations_c13b = obligations
 
 def obligations(ctx, cfg):
     return _obligations_c13b(ctx, cfg) + [TopicManagerHistory()]
+
+
+class SubscriptionManagerHistory(Obligation):
+    """SubscriptionManager::new() for real, then a fixed history through its public functions - no field of the manager is named"""
+    id = 'C13.g-history-subscription-manager'
+    tier = 'T3'
+    desc = ('SubscriptionManager::new(), create a, b, c on one topic, delete one of them, create d, then list the project: exactly the live subscriptions, in '
+            'creation order; walking it with page size 1 / 2 visits the same sequence once')
+    bounds = {'history': 'create x3, delete (a | b | c), create, list', 'page_size': '1, 2 and 1000'}
+    unroll = 10
+
+    def body(self, ip, p):
+        ctx = ip.ctx
+        install_tokens(ctx)
+        from props.C10 import typed_reply
+        from models_sync import ArcCell, ArcTok, LockM
+        from models_coll import MapM
+        ctx.on_enqueue = typed_reply
+        U = ctx.tok_ufs
+        pstate = Cell(mk(ctx, 'PushSubscriptionsRegistryState', push_subscriptions=MapM([])), 'pstate')
+        reg = mk(ctx, 'PushSubscriptionsRegistry', state=ArcCell(Cell(LockM('push_registry.state', pstate))))
+        mgr = run_to_end(ip.call_fn(ctx.fn('SubscriptionManager', 'new'), [reg]))
+        mcell = Cell(mgr, 'manager')
+        topic = p.fresh('topic_tok')
+        proj = U['topic_proj'](topic)
+        ids = [p.fresh('id_%s' % x) for x in 'abcd']
+        p.assume(z3.Distinct(ids))
+        names = [mk(ctx, 'SubscriptionName', project_id=StrTok(proj), subscription_id=StrTok(i)) for i in ids]
+
+        def create(nm):
+            info = mk(ctx, 'SubscriptionInfo', name=nm, ack_deadline=S(z3.IntVal(10 * 1_000_000_000), 'Duration'), push_config=Enum('Option', 0, {}))
+            coro = run_to_end(ip.call_fn(ctx.fn('SubscriptionManager', 'create_subscription'), [Ref(Loc(mcell)), info, ArcTok(topic, 'Topic')]))
+            res, _ = run_async(ip, p, coro, budget=0)
+            return res
+        created = [create(nm) for nm in names[:3]]
+        k = p.choose(3, 'which subscription is deleted')
+        delegate = mk(ctx, 'SubscriptionManagerDelegate', state=fld(ctx, mcell.v, 'SubscriptionManager', 'state'))
+        run_to_end(ip.call_fn(ctx.fn('SubscriptionManagerDelegate', 'delete'), [Ref(Loc(Cell(delegate))), Ref(Loc(Cell(names[k])))]))
+        created.append(create(names[3]))
+        pages = {}
+        for size in (1000, 2, 1):
+            seq = []
+            offset = Enum('Option', 0, {})
+            for _ in range(5):
+                paging = run_to_end(ip.call_fn(ctx.fn('Paging', 'new'), [S(z3.IntVal(size), 'usize'), offset]))
+                r = run_to_end(ip.call_fn(ctx.fn('SubscriptionManager', 'list_subscriptions_in_project'), [Ref(Loc(mcell)), StrTok(proj), paging]))
+                if r.discr != 0:
+                    seq = None
+                    break
+                page = r.payload[0][0]
+                ts = fld(ctx, page, 'SubscriptionsPage', 'subscriptions')
+                n = concrete_int(ts.n)
+                if n is None:
+                    raise Unsupported('page length is not concrete in a concrete history')
+                seq += [ts.elems[i] for i in range(n)]
+                off = fld(ctx, page, 'SubscriptionsPage', 'offset')
+                od = off.discr if isinstance(off.discr, int) else concrete_int(off.discr)
+                if od != 1:
+                    break
+                offset = off
+            pages[size] = seq
+        return {'names': names, 'k': k, 'created': created, 'pages': pages}
+
+    def post(self, ip, p, res):
+        ctx = ip.ctx
+        names, k = res['names'], res['k']
+        out = [Claim('all four creates succeed', all(c.discr == 0 for c in res['created']))]
+        want = [names[i] for i in range(3) if i != k] + [names[3]]
+        for size, seq in res['pages'].items():
+            out.append(Claim('listing with page size %d succeeds' % size, seq is not None))
+            if seq is None:
+                continue
+            conj = [z3.BoolVal(len(seq) == len(want))]
+            for t, w in zip(seq, want):
+                sv = read_loc(t.deref_loc(ip))
+                conj.append(eq_val(fld(ctx, sv, 'Subscription', 'name', 'subscriptions/subscription'), w))
+            out.append(Claim('page size %d: exactly the live subscriptions %s in creation order, each once' % (size, ['abcd'[names.index(w)] for w in want]), z3.And(conj)))
+        out.append(Cover('reached'))
+        return out
+
+
+_obligations_c13c = obligations
+
+
+def obligations(ctx, cfg):
+    return _obligations_c13c(ctx, cfg) + [SubscriptionManagerHistory()]
